@@ -1,14 +1,12 @@
 #!/bin/bash
-# usage: tools/confirm_seeded.sh <worktree>   - confirm a sub-agent's deliverable in its own worktree:
-#   demo exits 1 with the change, 0 without; the 143 baseline tests pass with the change.
+# usage: tools/confirm_seeded.sh <worktree>  - confirm a sub-agent's deliverable from its patch.diff alone (no git stash: the stash is shared
+# between worktrees): clean src -> demo must exit 0 ; apply patch -> demo must exit 1 and the 143 baseline tests must still pass.
 wt=$1
 cd $wt || exit 2
 test -f seeded/patch.diff -a -f seeded/demo.py || { echo "missing deliverables"; ls seeded; exit 2; }
-git stash -q -- src 2>/dev/null
-PYTHONPATH=$wt/src timeout 600 /venv/bin/python seeded/demo.py >/dev/shm/demo_clean.out 2>&1; rc_clean=$?
-git stash pop -q 2>/dev/null
-PYTHONPATH=$wt/src timeout 600 /venv/bin/python seeded/demo.py >/dev/shm/demo_mut.out 2>&1; rc_mut=$?
+git checkout -q -- src
+PYTHONPATH=$wt/src timeout 900 /venv/bin/python seeded/demo.py >/dev/shm/demo_clean.out 2>&1; rc_clean=$?
+git apply seeded/patch.diff || { echo "patch.diff does not apply"; exit 2; }
+PYTHONPATH=$wt/src timeout 900 /venv/bin/python seeded/demo.py >/dev/shm/demo_mut.out 2>&1; rc_mut=$?
 passed=$(PYTHONPATH=$wt/src timeout 900 /venv/bin/python -m pytest -q -p no:cacheprovider --timeout=900 tests 2>&1 | tail -1)
-echo "demo: clean rc=$rc_clean mutated rc=$rc_mut ; tests with change: $passed"
-tail -2 /dev/shm/demo_mut.out | cut -c1-300
-git diff --stat HEAD -- src | tail -3
+echo "$(basename $wt): demo clean rc=$rc_clean mutated rc=$rc_mut ; tests with change: $passed ; files: $(git diff --stat HEAD -- src | tail -1)"
